@@ -164,12 +164,40 @@ def run(ctx):
     multi = [k for k, e in md.items() if len(e['versions']) > 1]
     ecp5 = [k for k in ('aug-cc-pv5z-pp', 'aug-cc-pv5z-optri', 'def2-ecp', 'lanl2dz') if k in md]
     items = []
+    seq_dirs = []
     ndirs = ctx.n(2, 12)
     fmts_all = sorted(writers.get_writer_formats())
     for i in range(ndirs):
         aliased = [k for k, e in sorted(md.items()) if e['other_names']]
         must = rng.sample(with_notes, 3) + rng.sample(multi, 3) + ['4-31g', 'sto-3g'] + rng.sample(ecp5, min(2, len(ecp5))) + rng.sample(aliased, min(2, len(aliased)))
+        if i < 2 and 'def2-svp' in md and set(md['def2-svp']['versions']) == {'0', '1'}:
+            must = must + ['def2-svp']
         d, idx = make_dir(bse, rng, tmp, ctx.n(8, 16), must)
+        if i == 0 and 'def2-svp' in idx and set(idx['def2-svp']['versions']) == {'0', '1'}:
+            # def2-SVP with its two table files exchanged: version 1 of the store has an l = 5 ECP term that CRYSTAL cannot express, so in
+            # this directory it is the EARLIER version that the format refuses and the later one that it can write
+            e = idx['def2-svp']
+            p0, p1 = (os.path.join(d, e['versions'][v]['file_relpath']) for v in ('0', '1'))
+            c0, c1 = open(p0).read(), open(p1).read()
+            for p_, c_ in ((p0, c1), (p1, c0)):
+                os.remove(p_)
+                open(p_, 'w').write(c_)
+            from basis_set_exchange import curate
+            curate.create_metadata_file(os.path.join(d, 'METADATA.json'), d)
+            idx = json.load(open(os.path.join(d, 'METADATA.json')))
+        if i == 1:
+            # the same names as in the first directory, with another reference database (every title changed): what a bundle cites must
+            # come from the directory it is made from
+            rp = os.path.join(d, 'REFERENCES.json')
+            refs = json.load(open(rp))
+            os.remove(rp)
+            for k_, r_ in refs.items():
+                if isinstance(r_, dict) and 'title' in r_:
+                    r_['title'] = 'ANOTHER EDITION: ' + r_['title']
+            json.dump(refs, open(rp, 'w'))
+            seq_dirs.append((d, idx))
+        if i == 0:
+            seq_dirs.append((d, idx))
         pairs = [('nwchem', 'txt'), ('crystal', 'bib'), ('veloxchem', 'ris'), ('json', 'json')]
         pairs += [(rng.choice(fmts_all), rng.choice(['txt', 'bib', 'ris', 'endnote', 'json'])) for _ in range(ctx.n(2, 10))]
         for fmt, reffmt in pairs:
@@ -195,8 +223,12 @@ def run(ctx):
             gen_items.append((d, idx, fmt, reffmt, rng.choice(['zip', 'tbz']), tmp))
     reqs, gots = [], []
     outs = pmap(work, items)
+    # the two store-sampled directories that share names but not references, one after the other and back again, in this process
+    if len(seq_dirs) == 2:
+        gen_items += [(seq_dirs[0][0], seq_dirs[0][1], 'nwchem', 'bib', 'zip', tmp), (seq_dirs[1][0], seq_dirs[1][1], 'nwchem', 'bib', 'zip', tmp),
+                      (seq_dirs[0][0], seq_dirs[0][1], 'nwchem', 'bib', 'tbz', tmp)]
     if gen_items:
-        outs += pmap(work_many, [gen_items], nproc=2)[0] if len(gen_items) > 0 else []
+        outs += work_many(gen_items)
     for out in outs:
         R.ev(max(1, out['n']))
         R.count('archive:%s:%s' % (out['fmt'], out['atype']))
